@@ -9,7 +9,7 @@ INF = 'src/mbi/inference.py'
 GM = 'src/mbi/graphical_model.py'
 # in-place targets that are parameters by design, with the reason they are outside the property:
 ALLOWED = {
-    'FactoredInference.estimate': ('options',),            # the solver-options dict: only its 'callback' key is (re)written before every use
+    'FactoredInference.estimate': ('options:callback',),   # the solver-options dict: only its 'callback' key is (re)written before every use
     'FactoredInference.interior_gradient': ('c',),         # a scalar algorithm parameter (immutable number)
 }
 OWNERSHIP = [(INF, 'FactoredInference.estimate'), (INF, 'FactoredInference.fix_measurements'), (INF, 'FactoredInference._setup'),
